@@ -190,10 +190,16 @@ func LookupXpathFunction(
 var testedFunctionTable = make(map[string]bool)
 
 func markFunctionAsTested(name string) {
+	// Reached from running machines (when validation is enabled), which
+	// may run concurrently.
+	mu.Lock()
+	defer mu.Unlock()
 	testedFunctionTable[name] = true
 }
 
 func CheckAllFunctionsWereTested() error {
+	mu.Lock()
+	defer mu.Unlock()
 	for name, _ := range xpathFunctionTable {
 		if _, ok := testedFunctionTable[name]; !ok {
 			return fmt.Errorf("Function '%s' has not been tested!", name)
